@@ -285,6 +285,8 @@ impl RtpsWriterProxy {
                 self.acknack_count(),
             );
 
+            let nack_frag_count = self.nack_frag_count.wrapping_add(1);
+            let mut nack_frag_included = false;
             let rtps_message = if let Some(missing_change_fragments_seq_num) = self
                 .missing_changes()
                 .take(256)
@@ -315,8 +317,9 @@ impl RtpsWriterProxy {
                     self.remote_writer_guid().entity_id(),
                     missing_change_fragments_seq_num,
                     fragment_number_state,
-                    self.nack_frag_count,
+                    nack_frag_count,
                 );
+                nack_frag_included = true;
 
                 RtpsMessageWrite::from_submessages(
                     &[
@@ -332,6 +335,10 @@ impl RtpsWriterProxy {
                     reader_guid.prefix(),
                 )
             };
+
+            if nack_frag_included {
+                self.nack_frag_count = nack_frag_count;
+            }
 
             message_writer.write_message(rtps_message.buffer(), self.unicast_locator_list());
         }
